@@ -217,7 +217,13 @@ def plan(tier, seed):
 
 
 def shard(ctx):
-    prof = StreamProfile(knobs_fn=knobs, script_len=ctx.params["script_len"], op_weights=weights())
+    from ..templates import any_template, t_sig_calls
+
+    def templ(rng):
+        return t_sig_calls(rng) if rng.random() < 0.6 else any_template(rng)
+
+    prof = StreamProfile(knobs_fn=knobs, script_len=ctx.params["script_len"], op_weights=weights(), templates=templ)
+    prof.template_prob = 0.3
     run_stream(ctx, prof, [C19Monitor(ctx, ninputs=ctx.params["ninputs"])])
 
 
